@@ -62,13 +62,13 @@ def loaders_for(kind):
 
 def gen_cases(ctx):
     rng = ctx.rng("shapes")
-    rounds = 1 if ctx.quick else 3
+    rounds = 2 if ctx.quick else 4
     for rd in range(rounds):
         for i, cfg in enumerate(shapes(ctx, rng)):
             keys = key_family(rng, 8, 0, 12)
             n_ops = int(rng.integers(3, 25))
             hist = [ops.gen_op(rng, keys, max_value=50 if cfg["kind"] in ("log16", "log8") else None) for _ in range(n_ops)]
-            yield {"cfg": cfg, "history": hist, "offsets": "all"}
+            yield {"cfg": cfg, "history": hist, "offsets": "all", "overwrite": bool((i + rd) % 2)}
 
 
 def run_case(case, ctx, mon):
@@ -81,6 +81,17 @@ def run_case(case, ctx, mon):
     nonempty = any(np.any(snap[a]) for a in state.ARRAYS[kind])
     path = state.tmp_path(".npz")
     try:
+        if case.get("overwrite"):
+            # the path already holds an older, larger checkpoint of the same class (save() must replace it completely)
+            big = dict(cfg)
+            if kind == "hll":
+                big["p"] = min(16, cfg["p"] + 2)
+            else:
+                big["width"] = cfg["width"] * 3 + 7
+            older = state.make(big)
+            older.add(b"older-checkpoint", 3)
+            mon.api(older.save, path)
+            mon.count("files_saved_over_an_older_larger_file")
         mon.api(sketch.save, path)
         size = os.path.getsize(path)
         mon.seen("file_size", size)
@@ -130,3 +141,4 @@ def floors(mon, ctx):
     for k in state.ALL_KINDS:
         mon.floor(f"files of class {k}", mon.counters.get("files:" + k, 0), 1)
     mon.floor("prefix loads", mon.by_clause.get("prefix-must-raise", 0), 5000)
+    mon.floor("files saved over an older, larger file", mon.counters["files_saved_over_an_older_larger_file"], 5)
